@@ -157,12 +157,19 @@ def run_requests(ctx, req_path, tag, timeout=1800):
                  env={'RAYON_NUM_THREADS': os.environ.get('RAYON_NUM_THREADS', '4')})
     if rc != 0:
         raise RuntimeError('harness run failed: ' + out[-2000:])
-    with open(req_path) as f, open(model_path, 'w') as g:
+    reqs = [l.rstrip('\n') for l in open(req_path) if l.strip()]
+    impls = [l.rstrip('\n') for l in open(impl_path)]
+    # the Lean spec checkers see the implementation's answer: its integer encoding (`i.tok`)
+    # is appended to the request after a separator token
+    din_path = os.path.join(ctx.work, tag + '.din')
+    with open(din_path, 'w') as f:
+        for r, i in zip(reqs, impls):
+            m = re.search(r'(?:^|\|)i\.tok=([^|]*)', i)
+            f.write(r + (' 777777 ' + m.group(1) if m else '') + '\n')
+    with open(din_path) as f, open(model_path, 'w') as g:
         p = subprocess.run([DRIVER], stdin=f, stdout=g, stderr=subprocess.PIPE, text=True, timeout=timeout)
     if p.returncode != 0:
         raise RuntimeError('driver failed: ' + p.stderr[-2000:])
-    reqs = [l.rstrip('\n') for l in open(req_path) if l.strip()]
-    impls = [l.rstrip('\n') for l in open(impl_path)]
     models = [l.rstrip('\n') for l in open(model_path)]
     if not (len(reqs) == len(impls) == len(models)):
         raise RuntimeError(f'line count mismatch {len(reqs)} {len(impls)} {len(models)}')
